@@ -68,7 +68,7 @@ def gen_recs(r, fmt):
     if fmt in ("dkvp", "nidx", "csvlite", "tsv") and r.chance(0.5):
         # pieces that end in the last byte of a multi-character IRS without being the IRS (never a separator itself)
         recs = [[(k, r.choice([v, "y", "ay", "b", "ab", "x", "a.b"]) if r.chance(0.4) else v) for k, v in rec] for rec in recs]
-    if fmt in ("csv", "csvlite", "tsv") and nf == 1:
+    if fmt in ("csvlite", "tsv") and nf == 1:
         recs = [[(k, v if v != "" else "nonempty") for k, v in rec] for rec in recs]
     if fmt in ("csvlite", "json", "jsonl", "dkvp", "xtab", "pprint") and r.chance(0.3) and n > 2:
         # heterogeneous: drop the last field from the second half (csvlite schema blocks)
@@ -78,7 +78,8 @@ def gen_recs(r, fmt):
 
 VARIANTS = {
     "csv": [([], []), (["--quote-all"], []), (["--ors", "crlf"], []), (["--ofs", ";"], ["--ifs", ";"]),
-            (["--ofs", "tab"], ["--ifs", "tab"]), (["--headerless-csv-output"], ["--implicit-csv-header"]), (["--ofs", "|", "--quote-all"], ["--ifs", "|"])],
+            (["--ofs", "tab"], ["--ifs", "tab"]), (["--headerless-csv-output"], ["--implicit-csv-header"]), (["--ofs", "|", "--quote-all"], ["--ifs", "|"]),
+            (["--quote-all", "--ors", "crlf"], [])],
     "csvlite": [([], []), (["--headerless-csv-output", "--ors", "xy"], ["--implicit-csv-header", "--irs", "xy"]), (["--headerless-csv-output"], ["--implicit-csv-header"]),
                 (["--ors", "aab"], ["--irs", "aab"]), (["--ofs", ";"], ["--ifs", ";"]), (["--ofs", ";;"], ["--ifs", ";;"]), (["--ofs", "\u2192"], ["--ifs", "\u2192"])],
     "tsv": [([], []), (["--ors", "crlf"], []), (["--headerless-tsv-output"], ["--implicit-tsv-header"])],
@@ -102,6 +103,9 @@ def build_case(r, tier):
     fmt = r.choice(["csv", "csv", "csv", "csvlite", "tsv", "tsv", "json", "json", "jsonl", "dkvp", "nidx", "xtab", "pprint", "markdown", "usv", "asv"])
     recs = gen_recs(r, fmt)
     wopts, ropts = r.choice(VARIANTS[fmt])
+    if fmt == "csv" and "--quote-all" not in wopts and all(len(rec) == 1 for rec in recs):
+        # R8: a single-column empty value is written as an empty line unless everything is quoted
+        recs = [[(k, v if v != "" else "nonempty") for k, v in rec] for rec in recs]
     if fmt == "pprint" and "--barred" in wopts:
         # R8: the barred reader trims padded cells with strings.TrimSpace, so values beginning or ending in (any Unicode)
         # white space are outside the domain of that variant
